@@ -21,6 +21,7 @@ def run_case(ctx, idx, rng, tier):
     mon = TilingMonitor(ctx)
     r = prog.Runner(ctx, dev, reg, [mon])
     g = gen.ProgGen(rng, dev, reg, r.chspecs, bad=0.05, big=rng.random() < 0.2)
+    g.motifs["idle-twice"] = 0.15
     if idx % 3 == 2:
         g.frac_delay_p = 0.3  # delay(31.4, ch): accepted (castable to int); every boundary still is a whole clock multiple
     if idx % 4 == 1:
